@@ -108,10 +108,11 @@ PROPS = {
               "wNAF (real generic bodies of src/wnaf.rs, every window 1..=22): wnaf_table replaces the buffer by the odd multiples P, 3P, ..., (2^w - 1)P whatever it held before; "
               "wnaf_form replaces the digit buffer by digits d_i (0 or odd, |d_i| < 2^w) with sum d_i 2^i == c for every c with c + 2^w below the limb capacity, whatever it held before, and terminates; "
               "wnaf_exp returns [sum d_i 2^i]P for every such table and digit string with every table index in bounds; hence wnaf_exp(wnaf_table(P, w), wnaf_form(k, w)) == [k]P. "
-              "The recommended window sizes (empirical_recommended_wnaf_* and the trait entry points, G1 and G2) lie in 2..=22 for every input.",
+              "The recommended window sizes (empirical_recommended_wnaf_* and the trait entry points, G1 and G2) lie in 2..=22 for every input. "
+              "The 3-entry table path (real bodies, G1 and G2): precomp_3 stores [2^64]P, [2^128]P, [2^192]P; mul_precomp_3 builds the 16 subset sums of (P, [2^64]P, [2^128]P, [2^192]P) and returns [k]P for every 256-bit k "
+              "(nibble extraction related to bit i of the four words by bit-vector lemmas over the code's own expressions).",
         not_covered=["the Wnaf context methods (base / scalar / shared: type-state wrappers over AsRef / AsMut that call wnaf_table / wnaf_form / wnaf_exp in sequence) are not under contract: "
                      "reuse-independence is carried by the three contracts having no precondition on the previous buffer contents; the refutation search drives the contexts with reuse histories",
-                     "precomp_3 / mul_precomp_3 - contracts not completed (driven by the refutation search only)",
                      "ff::BitIterator itself (dependency; contract assumed)"],
         assumptions=[A['A3'], "ff::BitIterator contract assumed (dependency)", "group-level contracts of double / add_assign / add_assign_mixed / sub_assign are the statements of unit curve lifted through A3",
                      "wnaf_form sees PrimeFieldRepr through integer-level contracts of is_zero / is_odd / as_ref()[0] / From<u64> / sub_noborrow / add_nocarry / div2 (those the C08 Kani harnesses prove for FrRepr / FqRepr limb-wise); "
